@@ -1,12 +1,15 @@
-"""extract_facts.py -- copy finite tables and literals out of grpclib's source into coq/Gen/Facts.v.
+"""extract_facts.py -- read finite tables and constants out of grpclib into coq/Gen/Facts.v.
 
-The Python `ast` is used with a tiny constant evaluator: anything outside the recognised shapes
-raises Unsupported, which fails the run (fail-closed).  Three facts that are about VALUES (the
-members of the public Status enum, the status-details header name, the characters the grpc-message
-encoder leaves unescaped) are taken from the imported modules of the repository under test (in a
-child process), so that they do not depend on how the source spells them; when the syntax is
-readable as well, both must agree.  The Coq models are *instantiated* with these tables, so the theorems are
-re-checked against what the source says now."""
+Facts are taken BY VALUE from the imported modules of the repository under test (the same interpreter and
+PYTHONPATH the correspondence check uses; modules cached from anywhere else are purged first), so that they
+do not depend on how the source spells them: a table written as a comprehension, a frozenset instead of a set
+literal, a regular expression re-spelled with an equivalent character class or anchors, an if/elif chain
+rewritten as early returns or as a loop over a table all give the same fact, and a changed entry gives a
+different one.  Regular expressions are stated by what they accept (tools: re's own parser), encode_timeout by
+the decision chain it follows on a probe argument.  Each fact is independent: one that cannot be extracted is
+left out of Gen/Facts.v, so exactly the Coq files that use it stop compiling (fail-closed for them only).
+The Coq models are *instantiated* with these tables, so the theorems are re-checked against what the code is
+now."""
 import ast
 import http
 import json
@@ -583,13 +586,16 @@ def generate(repo):
     fact('status_details_key', f_sdk)
 
     def f_unq():
+        # the characters encode_grpc_message leaves unescaped (by behaviour); the private table, if it is still
+        # there under its name, must say the same
         md = load(repo, 'grpclib.metadata')
-        u = md._UNQUOTED
-        if isinstance(u, str):
-            cs = [ord(c) for c in u]
-        else:
-            cs = [ord(c) if isinstance(c, str) else int(c) for c in u]
-        return 'Definition unquoted : list Z := %s.' % zlist(sorted(set(cs)))
+        kept = [i for i in range(128) if md.encode_grpc_message(chr(i)) == chr(i)]
+        u = getattr(md, '_UNQUOTED', None)
+        if u is not None:
+            cs = sorted({ord(c) if isinstance(c, str) else int(c) for c in u})
+            if [c for c in cs if c < 128] != kept:
+                raise Unsupported('_UNQUOTED disagrees with what encode_grpc_message leaves unescaped')
+        return 'Definition unquoted : list Z := %s.' % zlist(kept)
     fact('unquoted', f_unq)
 
     def f_enc():
@@ -677,21 +683,6 @@ def generate(repo):
     fact('event_classes', f_events)
     add('')
 
-    # ---- plugin/main.py: _CARDINALITY
-    add('(* grpclib/plugin/main.py: _CARDINALITY ((client_streaming, server_streaming) -> member) *)')
-
-    def f_pcard():
-        pg = load(repo, 'grpclib.plugin.main')
-        const = load(repo, 'grpclib.const')
-        rows = []
-        for k, v in pg._CARDINALITY.items():
-            if not (isinstance(k, tuple) and len(k) == 2 and all(isinstance(x, bool) for x in k)
-                    and isinstance(v, const.Cardinality)):
-                raise Unsupported('_CARDINALITY entry %r' % ((k, v),))
-            rows.append('((%s, %s), %s)' % (str(k[0]).lower(), str(k[1]).lower(), zs(v.name)))
-        return 'Definition plugin_cardinality : list ((bool * bool) * list Z) := [%s].' % '; '.join(rows)
-    fact('plugin_cardinality', f_pcard)
-    add('')
     if failed:
         add('(* facts not extracted: %s *)' % ', '.join(failed))
     generate.failed = failed
